@@ -162,7 +162,7 @@ CHECKS = {
         note=SCHED_NOTE + " The decomposition is proved per tick (the multi-tick form follows by iterating the per-track function) "
              "for worlds without action callbacks; with callbacks tracks interact by design. PStaticPattern/PGlobals are checked "
              "against a reference state machine in the harness (no Lean model).",
-        technique="Lean 4 theorem (phase order) + merge oracle + differential correspondence"),
+        technique="Lean 4 tick-decomposition theorem (non-interference, induction over the track snapshot) + merge oracle + reference state machines + differential correspondence"),
     "C17": dict(
         text="Theorems: in tolerant mode no track exception ever escapes the track phase (any fault site, any number/order of "
              "tracks), the timeline's time advances exactly one tick per tick; the failing track is removed, its notes released, and "
